@@ -307,7 +307,17 @@ fn exchange_primitives(rep: &mut Report) {
                         rep.distinct(fnv_str(&format!("seg{l1}{l2}{salt}{start}{end}")));
                         let min = l1.min(l2);
                         if start > end {
-                            rep.count("crossover_segment:reversed-range-not-judged");
+                            // a reversed range addresses nothing that could be exchanged: whether it
+                            // is an error or an empty exchange is not judged, but it must not panic
+                            // and must not touch either genome
+                            rep.count("crossover_segment:reversed-range");
+                            let untouched = a == a0 && b == b0;
+                            if r.is_err() || !untouched {
+                                let what = if r.is_err() { "out-of-range-panics" } else { "reversed-range-modifies" };
+                                rep.violation(format!("C10/crossover_segment/{what}"), || {
+                                    json!({"self": a0.bits, "other": b0.bits, "range": format!("{start}..{end}"), "observed": format!("{r:?}"), "self_after": a.bits, "other_after": b.bits})
+                                });
+                            }
                             continue;
                         }
                         // an empty range that lies beyond the end of either genome (7..7 on five
